@@ -141,6 +141,7 @@ class Heap:
 
     def make_subset(self, d, g):
         s = PObj('GroupedSubset', fields={'data': d, 'group': g})
+        s.methods['label'] = ('__property__', lambda I, self_: self_.fields['group'].fields['label'])
 
         def delete(I, self_):
             # contract of Subset.delete (verified separately): detach from its dataset
@@ -156,7 +157,9 @@ class Heap:
         return s
 
     def make_group(self, label):
-        g = PObj('SubsetGroup', fields={'label': label, 'subsets': PList([])})
+        # groups may legally share a label (and a grouped subset shows its group's label): every group of the heap carries the SAME
+        # label, the worst case for anything keyed by label instead of identity; 'name' tells them apart in messages
+        g = PObj('SubsetGroup', fields={'label': 'shared-label', 'name': label, 'subsets': PList([])})
         for nm in ('_add_data', '_remove_data', 'register_to_hub', 'register'):
             g.methods[nm] = self.real('SubsetGroup', nm, g)
         g.methods['unregister'] = self.real('HubListener', 'unregister', g)
@@ -220,7 +223,7 @@ class Heap:
             for g in groups:
                 n = sum(1 for s in subs if s.fields['group'] is g)
                 if n != 1:
-                    bad.append("%s has %d subsets for %s" % (d.fields['label'], n, g.fields['label']))
+                    bad.append("%s has %d subsets for %s" % (d.fields['label'], n, g.fields.get('name', g.fields['label'])))
             for s in subs:
                 if not any(s.fields['group'] is g for g in groups):
                     bad.append("%s carries a subset of a dead group" % d.fields['label'])
@@ -230,9 +233,9 @@ class Heap:
             listed = g.fields['subsets'].items
             exp = [s for d in data for s in d.fields['_subsets'].items if s.fields['group'] is g]
             if set(map(id, listed)) != set(map(id, exp)) or len(listed) != len(exp):
-                bad.append("%s lists %d subsets, member datasets carry %d" % (g.fields['label'], len(listed), len(exp)))
+                bad.append("%s lists %d subsets, member datasets carry %d" % (g.fields.get('name', g.fields['label']), len(listed), len(exp)))
             if not (self.is_subscribed(g, 'DataCollectionAddMessage') and self.is_subscribed(g, 'DataCollectionDeleteMessage')):
-                bad.append("live group %s not subscribed" % g.fields['label'])
+                bad.append("live group %s not subscribed" % g.fields.get('name', g.fields['label']))
         for d in self.datas:
             if not any(d is x for x in data):
                 if any(any(s.fields['group'] is g for g in groups) for s in d.fields['_subsets'].items):
@@ -243,9 +246,9 @@ class Heap:
             for s in g.fields['subsets'].items:
                 dd = s.fields['data']
                 if any(dd is x for x in data) and any(s is x for x in dd.fields['_subsets'].items):
-                    bad.append("removed group %s still attached to %s" % (g.fields['label'], dd.fields['label']))
+                    bad.append("removed group %s still attached to %s" % (g.fields.get('name', g.fields['label']), dd.fields['label']))
             if self.is_subscribed(g, 'DataCollectionAddMessage') or self.is_subscribed(g, 'DataCollectionDeleteMessage'):
-                bad.append("removed group %s still subscribed" % g.fields['label'])
+                bad.append("removed group %s still subscribed" % g.fields.get('name', g.fields['label']))
         return bad
 
 
